@@ -119,6 +119,7 @@ class Ctx:
         self.violations = []
         self.viol_overflow = 0
         self.viol_groups = {}
+        self.viol_first = {}
         self.samples = []
         self.notes = []
         self.extra = {}
@@ -155,20 +156,26 @@ class Ctx:
         gk = (oracle, tuple(sorted(set(features))), json.dumps(site, sort_keys=True, default=str), repr(sig))
         n = self.viol_groups.get(gk, 0)
         self.viol_groups[gk] = n + 1
-        if n >= self.MAX_PER_GROUP or len(self.viol_groups) > self.MAX_GROUPS:
+        if len(self.viol_groups) > self.MAX_GROUPS:
             self.viol_overflow += 1
-            if len(self.viol_groups) > self.MAX_GROUPS:
-                self.counters['violations.dropped-group-limit'] += 1
+            self.counters['violations.dropped-group-limit'] += 1
             return
-        self.violations.append(
-            {
-                'oracle': oracle,
-                'features': sorted(set(features)),
-                'site': site,
-                'case': jsonable(case),
-                'detail': jsonable(detail),
-            }
-        )
+        if n >= self.MAX_PER_GROUP:
+            # counted with its group: the first witness of the group carries the number of further ones ('more'), so that they are
+            # attributed (to a recorded finding or not) together with it
+            self.viol_first[gk]['more'] += 1
+            return
+        v = {
+            'oracle': oracle,
+            'features': sorted(set(features)),
+            'site': site,
+            'case': jsonable(case),
+            'detail': jsonable(detail),
+        }
+        if n == 0:
+            v['more'] = 0
+            self.viol_first[gk] = v
+        self.violations.append(v)
 
     def note(self, text):
         if len(self.notes) < 50:
